@@ -75,7 +75,12 @@ Value& OpPUSExpression::value(Context& ctx) const
       {
         if (a1.isNull() || a2.isNull())
           return LVAL2(Value(Value::type_integer), a1, a2);
-        Value val(Integer(*a1.integer() >> *a2.integer()));
+        /* vacant bits are filled with zeros, a negative displacement shifts to the
+         * other direction, and all bits are shifted out from 64 (see the manual) */
+        const uint64_t u = static_cast<uint64_t>(*a1.integer());
+        const Integer d = *a2.integer();
+        Value val(Integer(d >= 64 || d <= -64 ? 0 :
+                d >= 0 ? static_cast<Integer>(u >> d) : static_cast<Integer>(u << -d)));
         return LVAL2(val, a1, a2);
       }
       default:
